@@ -595,6 +595,20 @@ func pqSystematicAlways() []string {
 			}
 		}
 	}
+	// S8: joins of label-complementary aggregations: without(L) on one side, by(all labels minus L) on the other, so that
+	// both sides carry the same label names and the join really matches; positive matchers on the removed labels.
+	for _, lr := range [][2]string{
+		{`sum without(a) (foo{a="1"})`, "sum by(b, c, d, job) (bar)"},
+		{`sum without(a, b) (foo{a="1", b="2"})`, "sum by(c, d, job) (bar)"},
+		{`sum without(b, a) (foo{a="1", b="2"})`, "sum by(c, d, job) (bar)"},
+		{`min without(a) (foo{a="1", c="1"})`, "sum by(b, c, d, job) (bar)"},
+		{`sum by(b, c) (foo{a="1"})`, "sum by(b, c) (bar)"},
+		{`sum by(c, b) (foo{a="1", b="2"})`, "sum by(b, c) (bar)"},
+	} {
+		for _, op := range []string{"and", "*", "unless"} {
+			out = append(out, fmt.Sprintf("%s %s %s", lr[0], op, lr[1]), fmt.Sprintf("%s %s %s", lr[1], op, lr[0]))
+		}
+	}
 	// S7: absent()/absent_over_time() over dead, always-returning and ordinary operands, bare and as the deciding
 	// operand of on() set operators
 	for _, in := range []string{"foo", `foo{a="1"}`, "vector(1)", "vector(1) > 2", "foo unless on() vector(1)", "foo and on(a) sum(bar)", "sum(foo)"} {
